@@ -2,8 +2,37 @@
 
 package resolver
 
+import "github.com/evanw/esbuild/internal/logger"
+
 // VerifGlobstarToEscapedRegexp exports globstarToEscapedRegexp (the translation of a package.json
 // "sideEffects" array entry to a regular expression text) for the verification harness.
 func VerifGlobstarToEscapedRegexp(glob string) (string, bool) {
 	return globstarToEscapedRegexp(glob)
+}
+
+// VerifDirInfo exports dirInfoCached for the verification harness: whether the directory information
+// exists (non-nil) and its absRealPath ("" when the resolver knows of no symlink on the way). It runs
+// under the resolver's mutex like Resolve does, on the resolver's own dirCache.
+func VerifDirInfo(res *Resolver, path string) (exists bool, absRealPath string) {
+	var debugMeta DebugMeta
+	r := resolverQuery{Resolver: res, debugMeta: &debugMeta}
+	r.mutex.Lock()
+	defer r.mutex.Unlock()
+	info := r.dirInfoCached(path)
+	if info == nil {
+		return false, ""
+	}
+	return true, info.absRealPath
+}
+
+// VerifFinalizeResolve exports the path rewriting of finalizeResolve: it wraps a "file" namespace path
+// in a ResolveResult, runs finalizeResolve on it and returns the (possibly rewritten) primary path.
+func VerifFinalizeResolve(res *Resolver, path string) string {
+	var debugMeta DebugMeta
+	r := resolverQuery{Resolver: res, debugMeta: &debugMeta}
+	r.mutex.Lock()
+	defer r.mutex.Unlock()
+	result := &ResolveResult{PathPair: PathPair{Primary: logger.Path{Text: path, Namespace: "file"}}}
+	r.finalizeResolve(result)
+	return result.PathPair.Primary.Text
 }
